@@ -23,7 +23,7 @@ BUDGET = {"quick": {"runs": 2500, "wall": 85}, "thorough": {"runs": 6000, "wall"
 SHRINK_LISTS = ("ops",)
 ISOLATE = True          # every run in a forked child: the subject is process-global state
 PROBES = {"C06": ["inject:pypose-frame", "inject:user-frame", "inject:torch-frame", "inject:other-frame", "user-raise",
-                  "user-raise:BaseException", "nested>=2", "reused-wrapper", "op-raised", "op-completed-despite-fault",
+                  "user-raise:BaseException", "nested>=2", "reused-wrapper", "reused-wrapper-inside-context", "op-raised", "op-completed-despite-fault",
                   "mode-B-fork", "enumerated-all-k", "monitor:api-call", "monitor:strided-args"]}
 
 # identity snapshot of the three patched attributes, taken at import (before any retain_ltype ran in this process)
@@ -105,7 +105,7 @@ def _region_body(fn, *a):
 # generation
 
 OPS = ("jacrev_log", "jacrev_act0", "jacrev_act1", "jacrev_exp", "jacrev_chain", "with_vmap", "with_jacfwd",
-       "with_jacrev", "nested_vmap", "reuse", "plain", "api", "api2")
+       "with_jacrev", "nested_vmap", "reuse", "reuse_inside", "plain", "api", "api2")
 
 
 def generate(seed, tier, prop="C06"):
@@ -342,6 +342,13 @@ def _make_thunk(o, fam, n, seed, reuse_cache):
                 r_ = jf(X)
             return r_
         return t, args
+    if op == "reuse_inside":
+        # the (possibly first) call of the shared jacobian function happens inside an active retain_ltype context
+        jf = reuse_cache.setdefault("jf", pp.func.jacrev(user_log))
+        def t():
+            with pp.retain_ltype():
+                return _region_body(jf, X)
+        return t, args
     if op == "plain":
         return lambda: torch.func.jacrev(user_plain)(p), args
     raise ValueError(op)
@@ -574,6 +581,8 @@ def execute(plan, prop, out, tr):
             out.probe("nested>=2")
         if o["op"] == "reuse":
             out.probe("reused-wrapper")
+        if o["op"] == "reuse_inside":
+            out.probe("reused-wrapper-inside-context")
         what = "op %d (%s%s)" % (i, o["op"], ", fault %s" % json.dumps(f) if f else "")
         if f is None:
             st, res = _run_once(thunk, out)
